@@ -63,6 +63,9 @@ CHECKS = {
  "C17": ("runtime monitor in child processes: every Encode entry point called with the cross product of argument value sets around each documented limit and buffer-length classes; recover()/exit-status oracle, required-error oracle for documented-invalid arguments, and decode-back geometry oracle for every returned stream",
          "Held on every executed argument tuple (about 110 000 per quick run, the full product in the thorough tier): no panic, an error for every documented-invalid tuple, and every returned stream decodes to the requested geometry; codec-level calls with nil / default / garbage / foreign parameter objects and zero / empty / short / nil inputs.",
          "The list of documented-invalid arguments is read from each Encode's validation code and comments; merely unwise values only get the no-panic and decode-back oracles.", "3/C17"),
+ "C18": ("Go race detector over cold child processes running 64-goroutine storms on the shared registry instances (and distinct low-level objects), plus solo-result comparison and quiescent-point digests of all package-level variables (digest code generated with go/parser into a scratch copy) and of the codec instances",
+         "Held on every executed storm: GOMAXPROCS in {1,2,4,16} x parameter mode {nil, per call, one shared default object}; zero race reports, every result equal to the same call run alone, no package-level variable or codec field changed between quiescent points; measured overlap is reported and a storm without overlap is inconclusive.",
+         "Race reports and digests see executed paths only; the static obligation in the quantifier text is not decided (runtime family).", "3/C18"),
 }
 
 NOT_YET = {
